@@ -242,6 +242,37 @@ def run(ck: vlib.Check):
             outcomes["valid-output"] += 1
     if seen:
         ck.known("key=content-empty-object-referenced " + known_keys["content-empty-object-referenced"])
+    # the same hand-built and boundary scenarios under an optimising interpreter (python -O: assert statements are not
+    # executed).  Whatever is emitted there must be valid too; the library validates with assert in places, which is the
+    # recorded finding asserts-as-validation-under-O.
+    import subprocess
+    ojobs = [(l_, b_, s_) for l_, b_, s_ in handbuilt_cases(fixed[:2]) + boundary_cases(fixed[-2:-1])]
+    p = subprocess.run(["/venv/bin/python", "-O", str(Path(__file__).resolve().parent / "o_worker.py")],
+                       input=json.dumps([{"base_hex": b_.hex(), "spec": s_} for _, b_, s_ in ojobs]),
+                       stdout=subprocess.PIPE, stderr=subprocess.DEVNULL, text=True, timeout=1800)
+    try:
+        ores = json.loads(p.stdout.strip().splitlines()[-1])
+    except Exception:  # noqa
+        ores = []
+        ck.oblige("harness:optimised-interpreter", False, p.stdout[-300:])
+    seen_o = []
+    for (label, base, spec), r in zip(ojobs, ores):
+        ck.evaluations += 1
+        ck.note_case("O:" + label)
+        hows["python -O"] = hows.get("python -O", 0) + 1
+        if r[0] == 0:
+            continue
+        problems = validator.validate(bytes.fromhex(r[1]))
+        if problems:
+            if "asserts-as-validation-under-O" in known_keys:
+                seen_o.append(f"{label}: {problems[0]}")
+            else:
+                ck.violation(f"under python -O, {label}: the emitted CHK is not structurally valid: {problems[0]}",
+                             {"kind": "invalid", "optimised": True, "label": label, "base_hex": base.hex(), "spec": spec,
+                              "problems": problems[:5]}, True)
+    if seen_o:
+        ck.known("key=asserts-as-validation-under-O " + known_keys["asserts-as-validation-under-O"])
+        ck.extra["invalid_output_under_python_O"] = seen_o[:10]
     ck.extra["degenerations"] = hows
     ck.extra["outcomes"] = outcomes
     if drv_ok:
